@@ -208,6 +208,14 @@ class BuilderGen:
             at[t] = "H %d" % rng.randint(0, 5)
             at[t + 1] = "R %d" % u2
             sets.setdefault(t, []).append(lab)
+        if rng.random() < 0.5:
+            # the far destination IS a return, and a return of the same action class (same bits under 0x7fff0000, other data
+            # bits or the kill_process bit) stands directly behind the jump
+            x, y = rng.choice([(0, 0x80000000), (0x80000000, 0), (0x50001, 0x50002), (0x50000 | 38, 0x50000 | 1), (0x7ff00001, 0x7ff00002),
+                               (0x30000, 0x30005), (0x7fff0000, 0x7fff0001)])
+            at[2] = "R %d" % x
+            t_far = tA if tA > tB else tB
+            at[t_far] = "R %d" % y
         for j, (pj, tj) in enumerate(later):
             at.setdefault(pj, "T %s %d %d" % (rng.choice(CONDS), rng.choice([0, 1, 2, 3, 7]), 4 + j))
             if not at[pj].startswith("T "):
